@@ -10,9 +10,13 @@ package server
 // One line per sequence:  engine2 <now0> <aofTimeDefault> <op>;<op>;…   (see lean/Driver/Engine2.lean)
 
 import (
+	"bufio"
+	"encoding/hex"
 	"fmt"
 	"math/rand"
+	"os"
 	"sort"
+	"strconv"
 	"strings"
 	"testing"
 	"time"
@@ -606,8 +610,140 @@ func vEngine2Run(t *testing.T, mode string, opsPer int) {
 	}
 }
 
+func vE2ParseOp(s string) (vE2Op, bool) {
+	f := strings.Fields(s)
+	if len(f) == 0 {
+		return vE2Op{}, false
+	}
+	switch f[0] {
+	case "L", "U":
+		if len(f) != 13 {
+			return vE2Op{}, false
+		}
+		n := make([]int, 12)
+		for i := 1; i < 12; i++ {
+			v, err := strconv.Atoi(f[i])
+			if err != nil {
+				return vE2Op{}, false
+			}
+			n[i] = v
+		}
+		o := vE2Op{vOp: vOp{kind: f[0][0], req: n[1], conn: n[2], flag: n[3], lockId: n[4], key: n[5], tflag: n[6], timeout: n[7], eflag: n[8], expried: n[9], count: n[10], rcount: n[11]}}
+		if f[12] != "-" {
+			b, err := hex.DecodeString(f[12])
+			if err != nil {
+				return vE2Op{}, false
+			}
+			o.frame = b
+		}
+		return o, true
+	case "T", "S", "J":
+		return vE2Op{vOp: vOp{kind: f[0][0]}}, true
+	case "R":
+		if len(f) < 2 {
+			return vE2Op{}, false
+		}
+		return vE2Op{vOp: vOp{kind: 'R', arg: int(f[1][0] - '0')}}, true
+	}
+	return vE2Op{}, false
+}
+
+// mode "engine2-replay": VERIF_REPLAY = file with one `engine2 <now0> <aofTime> op;op;…` line per case, run on the REAL engine
+func vEngine2Replay(t *testing.T) {
+	out := vOpen("engine2-replay")
+	defer out.close()
+	fh, err := os.Open(os.Getenv("VERIF_REPLAY"))
+	if err != nil {
+		t.Fatal(err)
+	}
+	defer fh.Close()
+	sc := bufio.NewScanner(fh)
+	sc.Buffer(make([]byte, 1<<20), 1<<26)
+	for sc.Scan() {
+		line := strings.TrimSpace(sc.Text())
+		if !strings.HasPrefix(line, "engine2 ") {
+			continue
+		}
+		parts := strings.SplitN(line, " ", 4)
+		if len(parts) < 4 {
+			continue
+		}
+		now0, _ := strconv.ParseInt(parts[1], 10, 64)
+		aofTime, _ := strconv.Atoi(parts[2])
+		v, ch := vE2NewSeq()
+		v.setClock(now0)
+		v.db.aofTime = uint8(aofTime)
+		g := &vGen{nextReq: 1 << 30, nconn: 3}
+		x := &vE2Run{v: v, ch: ch, g: g, r: rand.New(rand.NewSource(1)), out: out, leader: true}
+		seen := map[int]bool{}
+		var ops []vE2Op
+		for _, s := range strings.Split(parts[3], ";") {
+			if o, ok := vE2ParseOp(s); ok {
+				ops = append(ops, o)
+				if (o.kind == 'L' || o.kind == 'U') && !seen[o.key] {
+					seen[o.key] = true
+					x.keys = append(x.keys, o.key)
+				}
+			}
+		}
+		x.mon = vE2NewMonitor(out, x)
+		v.base = v.counters()
+		x.kc0 = v.base.KeyCount
+		v.onReply = func(rp vReply) {
+			if rp.data != nil {
+				rp.data = append([]byte{}, rp.data...)
+			}
+			x.replies = append(x.replies, rp)
+			x.mon.onReply(rp)
+			v.replies = v.replies[:0]
+		}
+		bad := ""
+		done := make(chan struct{})
+		go func() {
+			defer func() {
+				if e := recover(); e != nil {
+					bad = fmt.Sprintf("panic: %v", e)
+				}
+				close(done)
+			}()
+			for _, o := range ops {
+				x.do(o)
+			}
+			// a recorded sequence ends with its drain + 18 ticks: evaluate the reclamation clauses if nothing is live any more
+			live := 0
+			for _, key := range x.keys {
+				ks := x.keySnap(key)
+				live += len(ks.holds) + len(ks.waits)
+			}
+			if live == 0 && len(ops) > 18 && ops[len(ops)-3].kind == 'T' {
+				x.mon.drained()
+			}
+		}()
+		select {
+		case <-done:
+		case <-time.After(30 * time.Second):
+			bad = "hang"
+		}
+		strs := make([]string, len(x.ops))
+		for i, o := range x.ops {
+			strs[i] = o.String()
+		}
+		rl := fmt.Sprintf("engine2 %d %d %s", now0, aofTime, strings.Join(strs, ";"))
+		x.mon.line = rl
+		if bad != "" {
+			kind := strings.TrimSuffix(strings.Fields(bad)[0], ":")
+			out.emit(rl, strings.Join(append(x.obs, kind), ";"))
+			out.monitor("C13:engine2-"+kind, "the real engine "+bad+" while replaying", map[string]string{"ops": rl})
+			continue
+		}
+		out.emit(rl, strings.Join(x.obs, ";"))
+		x.mon.flush()
+	}
+}
+
 func init() {
 	vModes["engine2"] = func(t *testing.T) {
 		vEngine2Run(t, "engine2", vEnvInt("VERIF_OPS", 40))
 	}
+	vModes["engine2-replay"] = vEngine2Replay
 }
